@@ -77,6 +77,11 @@ public:
    * @brief From AbstractParametrizable interface
    */
   void fireParameterChanged(const ParameterList& parameters);
+
+  /**
+   * @brief The simplexes of the rows carry the namespace as well: their parameters are matched by name.
+   */
+  void setNamespace(const std::string& prefix);
 };
 } // end of namespace bpp
 #endif // BPP_NUMERIC_HMM_FULLHMMTRANSITIONMATRIX_H
